@@ -877,3 +877,226 @@ Proof.
     destruct (pos {| coming := false; sot := true; escd := _; buf := bf; stale := st; bsum := sm; dsrc := d |} <? MAXBUF);
     cbn [fst snd with_flags clear added coming sot escd buf bsum dsrc]; repeat split; reflexivity.
 Qed.
+
+Lemma step'_first now s x : coming s = false -> sot s = true -> x <> STX -> x <> ESC -> buf s = [] ->
+  step' now s x = (added (with_flags s true false false) x, None).
+Proof.
+  intros Hc Hs Hx1 Hx2 Hb. unfold step'. rewrite Hc, Hs.
+  destruct (Z.eqb_spec x STX) as [E|_]; [contradiction|].
+  destruct (Z.eqb_spec x ESC) as [E|_]; [contradiction|].
+  unfold pos. rewrite Hb. reflexivity.
+Qed.
+
+Definition report (now:Z) (s:rst) : option msg :=
+  if (nth 0 (buf s) 0 =? T_DATA) || (nth 0 (buf s) 0 =? T_REQ) then check_pure now (dsrc s) (bsum s) (buf s) else None.
+
+Lemma step'_etx now s : coming s = true -> escd s = true -> step' now s ETX = (clear s, report now s).
+Proof. intros Hc He. unfold step', report. rewrite Hc, He. reflexivity. Qed.
+
+Lemma end_seq now s : coming s = true -> escd s = false ->
+  run' now s [ESC; ETX] = (clear s, match report now s with Some m => [m] | None => [] end).
+Proof.
+  intros Hc He. rewrite run'_cons, (step'_esc1 now s Hc He). cbn [fst snd].
+  rewrite run'_cons, (step'_etx now (with_flags s true (sot s) true) eq_refl eq_refl). cbn [fst snd run'].
+  reflexivity.
+Qed.
+
+Lemma check_pure_len now d bs c m : bytes c -> check_pure now d bs c = Some m -> 3 <= Z.of_nat (length c).
+Proof.
+  intros Hb. unfold check_pure. pose proof (bytes_nth c 1 Hb) as H1.
+  destruct (Z.eqb_spec (Z.of_nat (length c)) (nth 1 c 0 + 3)) as [E|]; cbn [negb]; [|discriminate]. lia.
+Qed.
+
+Lemma Inv_bsum s : Inv s -> (2 <= length (buf s))%nat ->
+  bsum s mod 256 = sumx (nth 1 (buf s) 0 + 2) (buf s) 0 mod 256.
+Proof. intros (_ & _ & Hb) H. unfold bsum_ok in Hb. rewrite memv_buf in Hb by lia. exact Hb. Qed.
+
+(* what the reader reports at the end sequence is exactly what the format says about the buffered content *)
+Lemma report_consistent now s m : Inv s -> report now s = Some m -> consistent now (dsrc s) (buf s) m.
+Proof.
+  intros Hi. unfold report.
+  assert (Hb : bytes (buf s)) by (destruct Hi as ((_ & Hb) & _); apply bytes_app in Hb; tauto).
+  destruct (Z.eqb_spec (nth 0 (buf s) 0) T_DATA) as [E|E]; cbn [orb].
+  - intros H. pose proof (check_pure_len _ _ _ _ _ Hb H) as Hl.
+    apply (check_pure_sound now (dsrc s) (bsum s)); [exact Hb|apply Inv_bsum; [exact Hi|lia]|left; exact E|exact H].
+  - destruct (Z.eqb_spec (nth 0 (buf s) 0) T_REQ) as [E2|E2]; [|discriminate].
+    intros H. pose proof (check_pure_len _ _ _ _ _ Hb H) as Hl.
+    apply (check_pure_sound now (dsrc s) (bsum s)); [exact Hb|apply Inv_bsum; [exact Hi|lia]|right; exact E2|exact H].
+Qed.
+
+Lemma consistent_len now d c m : consistent now d c m -> (9 <= length c)%nat.
+Proof.
+  intros (_ & _ & _ & _ & _ & ck & [H|(H & _)]); rewrite H, app_length; [rewrite data_body_length|rewrite req_body_length];
+    cbn [length]; lia.
+Qed.
+
+Lemma consistent_report now s m : Inv s -> consistent now (dsrc s) (buf s) m -> report now s = Some m.
+Proof.
+  intros Hi Hc. pose proof (consistent_len _ _ _ _ Hc) as Hl.
+  destruct (check_pure_complete now (dsrc s) (bsum s) (buf s) m Hc (Inv_bsum s Hi ltac:(lia))) as [H1 H2].
+  unfold report. destruct H2 as [H2|H2]; rewrite H2.
+  - change (T_DATA =? T_DATA) with true. cbn [orb]. exact H1.
+  - change (T_REQ =? T_DATA) with false. change (T_REQ =? T_REQ) with true. cbn [orb]. exact H1.
+Qed.
+
+(* start sequence + escaped content from a state that is not waiting for the second half of an escape pair *)
+Lemma frame_run now s c : Inv s -> mid_escape s = false -> bytes c -> (1 <= length c <= 300)%nat ->
+  hd 0 c <> ESC -> hd 0 c <> STX ->
+  let r := run' now s ([ESC; STX] ++ esc c) in
+  snd r = [] /\ buf (fst r) = c /\ coming (fst r) = true /\ escd (fst r) = false /\ dsrc (fst r) = dsrc s /\ Inv (fst r).
+Proof.
+  intros Hi Hm Hc Hl H1 H2. cbv zeta.
+  destruct c as [|c0 c']; [cbn [length] in Hl; lia|]. cbn [hd] in H1, H2. cbn [length] in Hl.
+  pose proof (Forall_inv Hc) as Hc0. pose proof (Forall_inv_tail Hc) as Hc'.
+  rewrite run'_app.
+  destruct (start_seq now s Hm) as (S1 & S2 & S3 & S4 & S5 & S6 & S7).
+  assert (Hi1 : Inv (fst (run' now s [ESC; STX]))).
+  { apply run'_inv; [exact Hi|]. repeat constructor; unfold ESC, STX; lia. }
+  set (s1 := fst (run' now s [ESC; STX])) in *. rewrite S1. cbn [app fst snd].
+  cbn [esc]. destruct (Z.eqb_spec c0 ESC) as [E|_]; [contradiction|].
+  rewrite run'_cons. rewrite (step'_first now s1 c0 S2 S3 H2 H1 S5). cbn [fst snd].
+  assert (Hi2 : Inv (added (with_flags s1 true false false) c0)).
+  { pose proof (step'_inv now s1 c0 Hi1 Hc0) as H. rewrite (step'_first now s1 c0 S2 S3 H2 H1 S5) in H. exact H. }
+  set (s2 := added (with_flags s1 true false false) c0) in *.
+  assert (Hb2 : buf s2 = [c0]) by (unfold s2, added; cbn [buf with_flags]; rewrite S5; reflexivity).
+  destruct (run'_esc now c' s2 Hi2 eq_refl eq_refl Hc') as (G1 & G2 & G3 & G4 & G5 & G6 & G7).
+  { unfold pos, MAXBUF. rewrite Hb2. cbn [length]. lia. }
+  rewrite G1, G4, Hb2, G5. cbn [app]. repeat (split; [first [reflexivity|assumption]|]). exact G7.
+Qed.
+
+Lemma framed_run now s c : Inv s -> mid_escape s = false -> bytes c -> (1 <= length c <= 300)%nat ->
+  hd 0 c <> ESC -> hd 0 c <> STX ->
+  exists s3, Inv s3 /\ buf s3 = c /\ dsrc s3 = dsrc s /\
+    run' now s (framed c) = (clear s3, match report now s3 with Some m => [m] | None => [] end).
+Proof.
+  intros Hi Hm Hc Hl H1 H2.
+  destruct (frame_run now s c Hi Hm Hc Hl H1 H2) as (F1 & F2 & F3 & F4 & F5 & F6).
+  exists (fst (run' now s ([ESC; STX] ++ esc c))). split; [exact F6|]. split; [exact F2|]. split; [exact F5|].
+  unfold framed. rewrite app_assoc, run'_app. rewrite F1. cbn [fst snd]. rewrite app_nil_l.
+  rewrite (end_seq now _ F3 F4). reflexivity.
+Qed.
+
+(* ---------- 3. only consistent frames are reported ---------- *)
+Theorem reports_only_consistent : reports_only_consistent_stmt.
+Proof.
+  intros now s x s' m Hr Hx Hs.
+  pose proof (reachable_Inv now s Hr) as Hi. pose proof Hi as (Hm & Hsh & Hb).
+  rewrite (step_eq now s x Hm Hsh Hx) in Hs. injection Hs as Hs.
+  assert (H2 : snd (step' now s x) = Some m) by (rewrite Hs; reflexivity).
+  destruct (step'_report now s x m H2) as (E1 & E2 & E3 & E4 & E5 & E6).
+  split; [exact E1|]. split; [exact E2|]. split; [exact E3|].
+  assert (Hs' : s' = clear s) by (rewrite <- E4, Hs; reflexivity).
+  split; [rewrite Hs'; repeat split|].
+  apply report_consistent; [exact Hi|]. unfold report.
+  destruct E6 as [E6|E6]; rewrite E6.
+  - change (T_DATA =? T_DATA) with true. cbn [orb]. exact E5.
+  - change (T_REQ =? T_DATA) with false. change (T_REQ =? T_REQ) with true. cbn [orb]. exact E5.
+Qed.
+
+(* ---------- 3b. the buffer holds the unescaped content; consistent frames, and only those, are reported ---------- *)
+Theorem frame_content : frame_content_stmt.
+Proof.
+  intros now s c Hr Hm Hc Hl H1 H2.
+  pose proof (reachable_Inv now s Hr) as Hi.
+  split.
+  - destruct (frame_run now s c Hi Hm Hc Hl H1 H2) as (F1 & F2 & F3 & F4 & F5 & F6).
+    exists (fst (run' now s ([ESC; STX] ++ esc c))).
+    destruct (reachable_run now s ([ESC; STX] ++ esc c) Hr) as [E _].
+    { apply bytes_app. split; [repeat constructor; unfold ESC, STX; lia|apply esc_bytes; exact Hc]. }
+    rewrite E. split; [|repeat split; assumption].
+    rewrite <- F1. destruct (run' now s ([ESC; STX] ++ esc c)); reflexivity.
+  - destruct (framed_run now s c Hi Hm Hc Hl H1 H2) as (s3 & Hi3 & Hb3 & Hd3 & E3).
+    destruct (reachable_run now s (framed c) Hr) as [E _].
+    { unfold framed. apply bytes_app. split; [repeat constructor; unfold ESC, STX; lia|].
+      apply bytes_app. split; [apply esc_bytes; exact Hc|repeat constructor; unfold ESC, ETX; lia]. }
+    exists (clear s3), (match report now s3 with Some m => [m] | None => [] end).
+    rewrite E, E3. split; [reflexivity|]. split; [repeat split|]. split.
+    + intros m Hcm. rewrite <- Hd3, <- Hb3 in Hcm. rewrite (consistent_report now s3 m Hi3 Hcm). reflexivity.
+    + intros Hno. destruct (report now s3) as [m|] eqn:Er; [|reflexivity].
+      exfalso. apply (Hno m). rewrite <- Hd3, <- Hb3. apply report_consistent; assumption.
+Qed.
+
+(* ---------- 1. decode (encode m) = m ---------- *)
+Lemma wf_consistent now d m : wf_msg m -> consistent now d (data_body m ++ [cksum (data_body m)]) m.
+Proof.
+  intros (Hp & Hpr & Hd & Hs & Ht & Hdat & Hl). unfold byte in *.
+  change (2 ^ 24) with 16777216 in Hp. change (2 ^ 32) with 4294967296 in Ht.
+  assert (Hb : bytes (data_body m)).
+  { unfold data_body. cbn [le app]. repeat (apply Forall_cons; [unfold byte; lia|]). exact Hdat. }
+  unfold consistent. change (2 ^ 24) with 16777216. change (2 ^ 32) with 4294967296.
+  split. { apply bytes_app. split; [exact Hb|]. constructor; [unfold byte, cksum; lia|constructor]. }
+  split. { rewrite sum_app. unfold sum at 2. cbn [fold_right]. unfold cksum. lia. }
+  split; [lia|]. split; [lia|]. split; [lia|].
+  exists (cksum (data_body m)). left. reflexivity.
+Qed.
+
+Theorem decode_encode : decode_encode_stmt.
+Proof.
+  intros now mem d p s ms m Hg Hp Hrun Hmid Hwf.
+  pose proof Hwf as (Hpgn & _ & _ & _ & _ & _ & Hlen).
+  destruct (encode_frame m ltac:(lia) Hlen) as [Henc _].
+  pose proof (Inv_init mem d Hg) as Hi0.
+  destruct (run_eq now p (init mem d) Hi0 Hp) as [E0 Hi].
+  rewrite E0 in Hrun. injection Hrun as Hrun.
+  assert (Hs : fst (run' now (init mem d) p) = s) by (rewrite Hrun; reflexivity).
+  assert (Hms : snd (run' now (init mem d) p) = ms) by (rewrite Hrun; reflexivity).
+  rewrite Hs in Hi.
+  set (c := data_body m ++ [cksum (data_body m)]).
+  assert (Hc : consistent now (dsrc s) c m) by (apply wf_consistent; exact Hwf).
+  assert (Hbc : bytes c) by (destruct Hc as (H & _); exact H).
+  assert (Hlc : (1 <= length c <= 300)%nat).
+  { unfold c. rewrite app_length, data_body_length. cbn [length]. lia. }
+  destruct (framed_run now s c Hi Hmid Hbc Hlc) as (s3 & Hi3 & Hb3 & Hd3 & E3).
+  { unfold c, data_body. cbn [app hd]. unfold ESC. lia. }
+  { unfold c, data_body. cbn [app hd]. unfold STX. lia. }
+  rewrite <- Hd3, <- Hb3 in Hc. rewrite (consistent_report now s3 m Hi3 Hc) in E3.
+  exists (frame m), (clear s3). split; [exact Henc|].
+  assert (Hbf : bytes (frame m)).
+  { unfold frame, framed. fold c. apply bytes_app. split; [repeat constructor; unfold ESC, STX; lia|].
+    apply bytes_app. split; [apply esc_bytes; exact Hbc|repeat constructor; unfold ESC, ETX; lia]. }
+  destruct (run_eq now (p ++ frame m) (init mem d) Hi0) as [E1 _]; [apply bytes_app; split; assumption|].
+  rewrite E1, run'_app, Hs, Hms. unfold frame at 1 2. fold c. rewrite E3. cbn [fst snd].
+  split; [reflexivity|repeat split].
+Qed.
+
+(* ---------- 4. resynchronisation ---------- *)
+Theorem resync : resync_stmt.
+Proof.
+  split.
+  - intros now s Hr Hm.
+    destruct (reachable_run now s [ESC; STX] Hr) as [E _]; [repeat constructor; unfold ESC, STX; lia|].
+    destruct (start_seq now s Hm) as (S1 & S2 & S3 & S4 & S5 & S6 & S7).
+    exists (fst (run' now s [ESC; STX])). rewrite E. split; [|repeat split; assumption].
+    rewrite <- S1. destruct (run' now s [ESC; STX]); reflexivity.
+  - intros now s t l Hv Hrs Hrt Hl.
+    destruct (reachable_run now s l Hrs Hl) as [Es _]. destruct (reachable_run now t l Hrt Hl) as [Et _].
+    destruct (run'_sim now l s t Hv) as [H1 H2].
+    exists (fst (run' now s l)), (fst (run' now t l)), (snd (run' now s l)).
+    rewrite Es, Et. split; [destruct (run' now s l); reflexivity|]. split; [|exact H1].
+    rewrite H2. destruct (run' now t l); reflexivity.
+Qed.
+
+(* ---------- 5. ReadOut=false ---------- *)
+Theorem readout : readout_stmt.
+Proof.
+  intros now s l. revert s. induction l as [|x l IH]; intros s.
+  - cbn [run_ro run]. repeat split. constructor.
+  - cbn [run_ro run]. destruct (step now s x) as [[s1 o]| |]; cbn [bind]; try exact I.
+    specialize (IH s1). cbn [fst snd].
+    destruct (run_ro now s1 l) as [[[sa ma] ka]| |]; destruct (run now s1 l) as [[sb mb]| |]; cbn [bind fst snd];
+      try exact I; try contradiction.
+    destruct IH as (-> & -> & HF). split; [reflexivity|]. split; [reflexivity|].
+    unfold unconsumed. destruct (negb (coming s)); cbn [andb]; [|exact HF].
+    destruct (Z.eqb_spec x STX) as [E|E].
+    + destruct (negb (escd s)); [|exact HF]. constructor; [rewrite E; unfold STX, ESC; lia|exact HF].
+    + destruct (negb (sot s)); cbn [andb]; [|exact HF].
+      destruct (Z.eqb_spec x ESC) as [E2|E2]; cbn [negb]; [exact HF|]. constructor; [exact E2|exact HF].
+Qed.
+
+Print Assumptions encode_frame.
+Print Assumptions decode_encode.
+Print Assumptions reader_safe.
+Print Assumptions reports_only_consistent.
+Print Assumptions frame_content.
+Print Assumptions resync.
+Print Assumptions readout.
